@@ -218,7 +218,12 @@ func (g *genCtx) schema(depth int, inplaceMin int) Doc {
 					if r.chance(1, 3) {
 						add("items", DArr{})
 					}
-					add("additionalItems", pick(r, []Doc{DBool(false), desc(), DObj{{"type", DStr("string")}}}))
+					ai := pick(r, []Doc{DBool(false), desc(), DObj{{"type", DStr("string")}}})
+					if !g.noRef && g.ndefs > inplaceMin && r.chance(1, 3) {
+						// a reference with a sibling that alone would reject everything: draft-07 ignores the sibling
+						ai = DObj{{"$ref", DStr(g.refTo(inplaceMin + r.intn(g.ndefs-inplaceMin)))}, {"not", pick(r, []Doc{DObj{}, DBool(true)})}}
+					}
+					add("additionalItems", ai)
 				}
 				add("items", list(desc, 0, 3))
 			} else {
@@ -289,6 +294,10 @@ func (g *genCtx) schema(depth int, inplaceMin int) Doc {
 					} else {
 						add("$id", DStr(fmt.Sprintf("#anc%d", r.intn(g.ndefs))))
 					}
+				}
+				if g.draft7 && r.chance(1, 4) {
+					// ... and a sibling that alone would reject everything (what false unmarshals to)
+					add("not", pick(r, []Doc{DObj{}, DBool(true)}))
 				}
 			} else {
 				add("then", sub())
